@@ -82,7 +82,7 @@ BUDGET = {'quick': 15, 'thorough': 180}
 # every floor is below what the clock-independent part of the workload (exhaustive() + fixed())
 # delivers on its own, so a loaded machine cannot make a run inconclusive
 FLOORS = {
-    'quick': {'directed:array_shown_ranges': 100, 'directed:ranges_beside_a_one_cell_sheet': 30, 'directed:cancelling': 16, 'exh:grids': 15403, 'exh:sumproduct': 12681, 'exh:wb': 141,
+    'quick': {'directed:array_shown_ranges': 100, 'directed:ranges_beside_a_one_cell_sheet': 30, 'directed:cancelling': 16, 'directed:large_ranges': 11, 'exh:grids': 15403, 'exh:sumproduct': 12681, 'exh:wb': 141,
               'fixed:agg': 3300, 'fixed:subtotal': 300, 'fixed:sumproduct': 1125,
               'pycel_calls': 140000, 'calls:wb': 14000, 'calls:SUBTOTAL': 3000,
               'law:permutation:checked': 12000, 'law:permutation-several-codes:checked': 1500,
@@ -1213,7 +1213,55 @@ def cancelling_cases(ctx):
                                   f'{n_[1]!r}', case)
 
 
+def large_ranges(ctx):
+    """ranges of several hundred cells (the other workloads stay below 40): every numeric cell counts, whatever their
+    number - 255, 256, 257, 260, 300, 511, 513, 700 of them - and however the range is shaped"""
+    from vp.lib import call, eval_formula
+    k = 0
+    for n, shape in ((255, (255, 1)), (256, (1, 256)), (257, (257, 1)), (260, (30, 10)), (300, (300, 1)), (300, (3, 100)),
+                     (511, (73, 7)), (513, (27, 19)), (700, (25, 28)), (540, (45, 12)), (512, (64, 8))):
+        k += 1
+        if not ctx.mine(k):
+            continue
+        h, w = shape
+        flat_, numbers = [], 0
+        i = 0
+        while numbers < n or len(flat_) < h * w:
+            i += 1
+            if len(flat_) >= h * w:
+                break
+            v = ('t%d' % i) if i % 13 == 0 else True if i % 29 == 0 else None if i % 31 == 0 else (i * 7) % 23 - 9 + (0.5 if i % 5 == 0 else 0)
+            if isinstance(v, (int, float)) and not isinstance(v, bool):
+                if numbers >= n:
+                    v = 'x'
+                else:
+                    numbers += 1
+            flat_.append(v)
+        grid = tuple(tuple(flat_[r * w:(r + 1) * w]) for r in range(h))
+        nums = [v for v in flat_ if isinstance(v, (int, float)) and not isinstance(v, bool)]
+        want = {'SUM': sum(nums), 'COUNT': len(nums), 'MAX': max(nums), 'MIN': min(nums), 'AVERAGE': sum(nums) / len(nums)}
+        case = {'kind': 'large-ranges'}
+        ctx.count('directed:large_ranges')
+        ctx.case(('large-range', n, shape))
+        cells = {wb.coord(1 + c, 1 + r): grid[r][c] for r in range(h) for c in range(w) if grid[r][c] is not None}
+        ref_ = f'A1:{wb.coord(w, h)}'
+        for f, py in (('SUM', 'sum_'), ('COUNT', 'count'), ('MAX', 'max_'), ('MIN', 'min_'), ('AVERAGE', 'average')):
+            outs = {'library call': call(py, grid), 'worksheet': eval_formula(f'={f}({ref_})', cells)}
+            if f in ('SUM', 'AVERAGE'):
+                outs['SUBTOTAL'] = eval_formula(f'=SUBTOTAL({9 if f == "SUM" else 1},{ref_})', cells)
+                # additivity: the same cells as two ranges
+                half = wb.coord(w, h // 2) if h > 1 else wb.coord(w // 2, 1)
+                rest = f'A{h // 2 + 1}:{wb.coord(w, h)}' if h > 1 else f'{wb.coord(w // 2 + 1, 1)}:{wb.coord(w, 1)}'
+                outs['two ranges'] = eval_formula(f'={f}(A1:{half},{rest})', cells)
+            for name, o in outs.items():
+                if o[0] != 'v' or isinstance(o[1], (str, bool)) or abs(o[1] - want[f]) > 1e-9 * max(1, abs(want[f])):
+                    ctx.violation(f'{f}/wrong-value/range-of-several-hundred-cells',
+                                  f'{name}: {f} over a {h}x{w} range with {len(nums)} numeric cells (and text, logicals, '
+                                  f'blanks) = {o!r}; the numeric cells give {want[f]!r}', case)
+
+
 def run(ctx):
+    large_ranges(ctx)
     if ctx.shard == 0:
         table_references(ctx)
     if ctx.shard == 1 % ctx.nshards:
@@ -1232,6 +1280,10 @@ def replay(ctx, case):
         return
     if case.get('kind') == 'one-cell-sheet':
         ranges_beside_a_one_cell_sheet(ctx)
+        return
+    if case.get('kind') == 'large-ranges':
+        ctx.shard, ctx.nshards = 0, 1
+        large_ranges(ctx)
         return
     if case.get('kind') == 'cancelling':
         cancelling_cases(ctx)
